@@ -10,6 +10,10 @@ open DepsDev.Gen
 
 def Graph.vkAt (g : Graph) (i : Nat) : Option VK := g.nodes[i]?.map (·.vk)
 
+/-- `vkAt` only looks at the nodes -/
+@[simp] theorem vkAt_edges_irrel (g : Graph) (es : List Edge) (i : Nat) :
+    Graph.vkAt { nodes := g.nodes, edges := es } i = g.vkAt i := rfl
+
 theorem vkAt_lt {g : Graph} {i : Nat} {v : VK} (h : g.vkAt i = some v) : i < g.nodes.length := by
   unfold Graph.vkAt at h
   cases hn : g.nodes[i]? with
